@@ -46,6 +46,8 @@ where
   pub(crate) receiver_count: AtomicUsize,
   /// Live sender handles; the mailboxes are disconnected when the last one goes.
   pub(crate) sender_count: AtomicUsize,
+  /// Every receiver's mailbox, subscribed or not, so that the disconnect reaches all of them.
+  pub(crate) mailboxes: parking_lot::Mutex<Vec<Weak<mailbox::MailboxProducer<(K, T)>>>>,
 }
 
 impl<K, T> fmt::Debug for SpmcTopicDispatcher<K, T>
@@ -78,6 +80,27 @@ where
       subscriptions: HashMap::new(),
       receiver_count: AtomicUsize::new(0),
       sender_count: AtomicUsize::new(1),
+      mailboxes: parking_lot::Mutex::new(Vec::new()),
+    }
+  }
+
+  /// Registers a receiver's mailbox; a mailbox that joins after the last sender left is
+  /// disconnected at once.
+  pub(crate) fn register_mailbox(&self, mailbox: &Arc<mailbox::MailboxProducer<(K, T)>>) {
+    let mut all = self.mailboxes.lock();
+    all.retain(|w| w.upgrade().is_some());
+    all.push(Arc::downgrade(mailbox));
+    if self.sender_count.load(Ordering::Acquire) == 0 {
+      mailbox.disconnect();
+    }
+  }
+
+  /// Called by the last sender handle: disconnects every receiver's mailbox.
+  pub(crate) fn disconnect_all(&self) {
+    for mailbox_weak in self.mailboxes.lock().iter() {
+      if let Some(mailbox_strong) = mailbox_weak.upgrade() {
+        mailbox_strong.disconnect();
+      }
     }
   }
 }
